@@ -332,7 +332,7 @@ class _FailingCursor:
         self._p["n"] += 1
         self._p["log"].append(what)
         if self._p["n"] - 1 == self._p["at"]:
-            raise RuntimeError("injected failure at " + what)
+            raise self._p.get("exc", RuntimeError)("injected failure at " + what)
 
     def execute(self, sql, *a):
         self._hit("execute:" + sql.strip().split()[0])
@@ -362,6 +362,10 @@ class _FailingConn:
 
     def __getattr__(self, k):
         return getattr(self._c, k)
+
+
+class _Interrupt(BaseException):
+    """stands for KeyboardInterrupt / SystemExit / a cancellation: not an Exception"""
 
 
 def sqlite_args(a):
@@ -417,17 +421,18 @@ def run_sqlite(chk: Check, s1, s2, label="short-history"):
             chk.disagree("statements of the SQLite save != model (ddl, delete, insert, commit)", {"statements": stmts})
         reqs = []
         outcomes = []
-        for k in range(nstm):
+        # the failure is an ordinary exception, or one that is not an Exception (an interrupt, an exit request): either way the save failed
+        for k, exc in [(k, e) for k in range(nstm) for e in (RuntimeError, _Interrupt)]:
             d = tempfile.mkdtemp(prefix="vpc06q")
             try:
                 if have_prev:
                     sq.save_calibrator_state(d, *sqlite_args(s1))
-                plan = {"n": 0, "at": k, "log": []}
+                plan = {"n": 0, "at": k, "log": [], "exc": exc}
                 sq.sqlite3.connect = lambda *a, **kw: _FailingConn(real_connect(*a, **kw), plan)
                 raised = None
                 try:
                     sq.save_calibrator_state(d, *sqlite_args(s2))
-                except RuntimeError as e:
+                except (RuntimeError, _Interrupt) as e:
                     raised = str(e)
                 finally:
                     sq.sqlite3.connect = real_connect
@@ -435,11 +440,12 @@ def run_sqlite(chk: Check, s1, s2, label="short-history"):
             finally:
                 shutil.rmtree(d, ignore_errors=True)
             out = "new" if got == LN else "prev" if got == LP else ("error" if isinstance(got, str) else "hybrid")
-            outcomes.append((k, stmts[k], raised, out))
+            outcomes.append((k, stmts[k] + ("" if exc is RuntimeError else " (a BaseException that is not an Exception)"), raised, out))
             reqs.append(f"ckpt.sql {'1 5' if have_prev else '0'} {midx[k]}")
+            chk.count("sqlite:exception_class:" + exc.__name__)
         answers = lean_run(reqs)
         for (k, st, raised, out), ans in zip(outcomes, answers):
-            chk.case(["sqlite", label, have_prev, k], True, {"backend": "sqlite", "history": label, "previous_checkpoint": have_prev, "exception_at_statement": st, "restore": out})
+            chk.case(["sqlite", label, have_prev, k, st], True, {"backend": "sqlite", "history": label, "previous_checkpoint": have_prev, "exception_at_statement": st, "restore": out})
             chk.count(f"sqlite:{'prev' if have_prev else 'empty'}:{out}")
             model = {"5": "prev", "999": "new", "": "prev"}.get(ans, ans)     # committed table: [5]=previous row, [999]=new row, []=nothing (= previous state of an empty db)
             if raised is None:
